@@ -32,7 +32,7 @@ Proof. exact log_key_of_inj. Qed.
 Print Assumptions C02_log_key_injective.
 
 (* ---- the table level: the whole of C02 ---- *)
-From RT Require Import Model.Writer Model.Reader Proofs.TableProofs Proofs.SeekProofs Proofs.ReadOneProofs.
+From RT Require Import Model.Writer Model.Reader Proofs.TableProofs Proofs.SeekProofs Proofs.ReadOneProofs Proofs.LogKeyOrder.
 
 (* For every table the writer produces -- no index, one or several index
    levels, a multi-block top level, any block size / padding / restart
@@ -99,5 +99,28 @@ Theorem C02_read_log_at : forall deflate inflate,
     forall name idx, read_log_at inflate r name idx = Ok (find_log_at name idx logs').
 Proof. exact table_read_log_at. Qed.
 Print Assumptions C02_read_log_at.
+
+(* "the newest entry of that ref whose update index is <= u": for ref names without a zero
+   byte (Git's never have one) the key order IS (name ascending, update index descending),
+   and the record the seek lands on is that newest entry -- or, if it carries another name,
+   the ref has no entry at or below u at all.  With a zero byte in a name the reading fails
+   (LogKeyOrder.nul_name_breaks_newest). *)
+Theorem C02_log_key_order : forall n1 i1 n2 i2, nul_free n1 -> nul_free n2 -> i1 < two64 -> i2 < two64 ->
+  (bytes_ltb (log_key_of n1 i1) (log_key_of n2 i2) = true <->
+   (bytes_ltb n1 n2 = true \/ (n1 = n2 /\ i2 < i1))).
+Proof. exact log_key_order. Qed.
+Print Assumptions C02_log_key_order.
+
+Theorem C02_seek_log_newest : forall name u logs,
+  nul_free name -> u < two64 ->
+  Forall (fun l => nul_free (l_name l) /\ l_index l < two64) logs ->
+  StronglySorted (fun a b => bytes_ltb (log_key a) (log_key b) = true) logs ->
+  match find_log_at name u logs with
+  | Some l => In l logs /\ l_name l = name /\ l_index l <= u /\
+              (forall l', In l' logs -> l_name l' = name -> l_index l' <= u -> l_index l' <= l_index l)
+  | None => forall l', In l' logs -> l_name l' = name -> u < l_index l'
+  end.
+Proof. exact seek_logs_newest. Qed.
+Print Assumptions C02_seek_log_newest.
 
 Definition C02_nonvacuous := (table_seek_ref_stored, table_seek_log_stored).
